@@ -12,6 +12,7 @@ import (
 
 func init() {
 	vpRegister("c10_envblock", vpH_c10_envblock)
+	vpRegister("c10_escapes", vpH_c10_escapes)
 }
 
 // vpEnvModel is the oracle's environment: a list of pairs with the caller
